@@ -3,6 +3,7 @@ import BlugeProofs.C08.Searchers
 import BlugeProofs.C08.Offline
 import BlugeProofs.C08.Layouts
 import BlugeProofs.C08.Multi
+import BlugeProofs.C08.Backup
 /-! # C08 — search answers depend only on the logical documents, not the layout
 Property theorems only (helper lemmas live in `BlugeProofs/C08/*.lean`, models in `Bluge/Layout.lean`). -/
 namespace Bluge.C08
@@ -312,5 +313,161 @@ example (perReader : List (List Nat)) :
     perReader).1
 
 example : multiSearch cmpDescThenHit [[5, 1], [9, 5]] = [(9, 3), (5, 1), (5, 4), (1, 2)] := by decide
+
+/-! ## E. Backup -/
+
+/-- **backup_equiv**: a `Backup` in which every `Persist` completes, of a snapshot whose segment ids are
+distinct, into ANY directory whose snapshot files are all older than the snapshot (an empty directory, an
+earlier backup of the same index): `nil` is returned and `OpenReader` on the target opens exactly the
+reader's snapshot — the same epoch, per segment the same documents at the same local numbers with the same
+deleted set, hence the same global doc numbers and the same logical documents. Segment files the target
+already had under the same ids are overwritten. -/
+theorem backup_equiv {α : Type} (s : RSnap α) (d : BDir α) (hid : (s.segs.map (·.id)).Nodup)
+    (hep : ∀ f ∈ d.snapFiles, f.1 < s.epoch) :
+    (backup none s d).2 = true ∧
+    (backup none s d).1.openReader = some (s.epoch, s.content) ∧
+    (∀ r, (backup none s d).1.openReader = some r → contentAbs r.2 = contentAbs s.content) := by
+  have hb : backup none s d =
+      ((backupSegs none 0 s.segs d).1.putSnap s.epoch s.entries, true) := by
+    unfold backup
+    have h2 := backupSegs_none_ok s.segs 0 d
+    generalize backupSegs none 0 s.segs d = r at h2
+    obtain ⟨d', o⟩ := r
+    simp only at h2; subst h2
+    simp
+  have hopen : ((backupSegs none 0 s.segs d).1.putSnap s.epoch s.entries).openReader = some (s.epoch, s.content) := by
+    generalize hd1 : (backupSegs none 0 s.segs d).1 = d1
+    have hw : ∀ g ∈ s.segs, d1.seg? g.id = some g.docs := by
+      intro g hg; rw [← hd1]; exact backupSegs_none_written s.segs 0 d hid g hg
+    have hs : d1.snapFiles = d.snapFiles := by rw [← hd1]; exact backupSegs_snapFiles none s.segs 0 d
+    have hload : (d1.putSnap s.epoch s.entries).load s.entries = some s.content :=
+      load_entries (d1.putSnap s.epoch s.entries) s hw
+    unfold BDir.openReader
+    show List.foldl (pickSnap (d1.putSnap s.epoch s.entries))
+      none ((s.epoch, s.entries) :: d1.snapFiles.filter fun f => f.1 != s.epoch) = _
+    simp only [List.foldl_cons]
+    have : pickSnap (d1.putSnap s.epoch s.entries) none (s.epoch, s.entries) = some (s.epoch, s.content) := by
+      unfold pickSnap; simp only [hload]
+    rw [this]
+    apply fold_pick_keeps
+    intro f hf
+    rw [hs] at hf
+    exact hep f (List.mem_filter.1 hf).1
+  rw [hb]
+  refine ⟨rfl, hopen, ?_⟩
+  intro r hr
+  rw [hopen] at hr
+  cases hr; rfl
+
+/-- the hypothesis on the epochs is needed: a backup into a directory that holds a NEWER snapshot leaves a
+directory in which a reader opens that newer snapshot, not the one backed up -/
+theorem backup_into_newer_witness :
+    let s : RSnap Nat := { epoch := 3, segs := [{ id := 1, docs := [10, 11], deleted := [] }] }
+    let d : BDir Nat := { segFiles := [(7, [99])], snapFiles := [(5, [(7, [])])] }
+    (backup none s d).2 = true ∧ (backup none s d).1.openReader = some (5, [([99], [])]) := by
+  decide
+
+/-- **partial backup, general target**: when the `k`-th `Persist` of a backup fails (`k` ≤ number of
+segments: any segment, or the snapshot itself) the backup reports failure, and whatever a reader can then
+open in the target is a snapshot the target held BEFORE, with the content it had before — for any target
+whose snapshots all load and whose segment files, where they share an id with the snapshot backed up, are
+files of the same index. In particular a cancelled backup never makes a directory openable as something
+that is neither the old nor the new index. (A failed `Persist` removes the file it was writing, so a target
+snapshot that named that segment no longer loads and the reader falls back to an older one, or to none.) -/
+theorem backup_partial_never_wrong {α : Type} (s : RSnap α) (d : BDir α) (k : Nat) (hk : k ≤ s.segs.length)
+    (hc : d.closed) (ha : d.agrees s) :
+    (backup (some k) s d).2 = false ∧
+    ∀ r, (backup (some k) s d).1.openReader = some r →
+      ∃ f ∈ d.snapFiles, f.1 = r.1 ∧ d.load f.2 = some r.2 := by
+  -- the directory after the segment loop
+  have hres := backupSegs_some_result k s.segs 0 d (Nat.zero_le _)
+  have hsn := backupSegs_snapFiles (some k) s.segs 0 d
+  have horig := backupSegs_origin (some k) s.segs d s.segs 0 d (fun g hg => hg) (fun id y hy => Or.inl hy)
+  generalize hbs : backupSegs (some k) 0 s.segs d = bs at hres hsn horig
+  obtain ⟨d1, o⟩ := bs
+  simp only at hres hsn horig
+  -- the final directory: d1 with possibly one snapshot file less
+  have key : ∃ d2 : BDir α, backup (some k) s d = (d2, false) ∧ d2.segFiles = d1.segFiles ∧
+      (∀ f ∈ d2.snapFiles, f ∈ d.snapFiles) := by
+    unfold backup
+    rw [hbs]
+    cases o with
+    | some j => exact ⟨d1, rfl, rfl, fun f hf => hsn ▸ hf⟩
+    | none =>
+      have hlen : s.segs.length ≤ k := by simpa using hres.1 rfl
+      have hkl : k = s.segs.length := by omega
+      subst hkl
+      refine ⟨d1.dropSnap s.epoch, by simp, rfl, ?_⟩
+      intro f hf
+      have := (List.mem_filter.1 hf).1
+      rw [hsn] at this; exact this
+  obtain ⟨d2, hb, hseg, hsub⟩ := key
+  rw [hb]
+  refine ⟨rfl, ?_⟩
+  intro r hr
+  rcases fold_pick_origin d2 d2.snapFiles none r hr with h | ⟨f, hf, hf1, hf2⟩
+  · cases h
+  · have hfd := hsub f hf
+    refine ⟨f, hfd, hf1, ?_⟩
+    have hcl := hc f hfd
+    cases hl : d.load f.2 with
+    | none => rw [hl] at hcl; cases hcl
+    | some c0 =>
+      have hag : ∀ id y z, d2.seg? id = some y → d.seg? id = some z → y = z := by
+        intro id y z hy hz
+        have hy1 : d1.seg? id = some y := by
+          unfold BDir.seg? at hy ⊢; rw [← hseg]; exact hy
+        rcases horig id y hy1 with h0 | ⟨g, hg, hgid, hgd⟩
+        · rw [h0] at hz; cases hz; rfl
+        · subst hgid
+          have := ha g hg z hz
+          rw [this, hgd]
+      rw [load_agree d d2 hag f.2 c0 r.2 hl hf2]
+
+/-- **partial backup into a fresh directory**: whichever `Persist` fails, the target holds no snapshot
+file and `OpenReader` refuses it ("unable to find a usable snapshot") -/
+theorem backup_partial_unopenable {α : Type} (s : RSnap α) (k : Nat) (hk : k ≤ s.segs.length) :
+    (backup (some k) s {}).2 = false ∧ (backup (some k) s {}).1.openReader = none := by
+  have h := backup_partial_never_wrong s ({} : BDir α) k hk
+    (by intro f hf; cases hf) (by intro g _ x hx; simp [BDir.seg?, List.lookup] at hx)
+  refine ⟨h.1, ?_⟩
+  cases ho : (backup (some k) s {}).1.openReader with
+  | none => rfl
+  | some r => obtain ⟨f, hf, _⟩ := h.2 r ho; cases hf
+
+/-- **a backup that is run again** into the directory a failed one left behind (fresh before) opens as the
+reader's snapshot -/
+theorem backup_resumed {α : Type} (s : RSnap α) (k : Nat) (hk : k ≤ s.segs.length)
+    (hid : (s.segs.map (·.id)).Nodup) :
+    (backup none s (backup (some k) s {}).1).1.openReader = some (s.epoch, s.content) := by
+  apply (backup_equiv s _ hid ?_).2.1
+  intro f hf
+  -- the failed backup left no snapshot file
+  have hres := backupSegs_some_result k s.segs 0 ({} : BDir α) (Nat.zero_le _)
+  have hsn := backupSegs_snapFiles (some k) s.segs 0 ({} : BDir α)
+  unfold backup at hf
+  generalize backupSegs (some k) 0 s.segs ({} : BDir α) = bs at hres hsn hf
+  obtain ⟨d1, o⟩ := bs
+  simp only at hres hsn hf
+  cases o with
+  | some j => simp only at hf; rw [hsn] at hf; cases hf
+  | none =>
+    have hlen : s.segs.length ≤ k := by simpa using hres.1 rfl
+    have hkl : k = s.segs.length := by omega
+    subst hkl
+    simp only [if_true] at hf
+    have := (List.mem_filter.1 hf).1
+    rw [hsn] at this; cases this
+
+/-- non-vacuity: a two-segment snapshot with a pending deletion; complete, cut at every step, resumed -/
+example :
+    let s : RSnap Nat := { epoch := 4, segs := [{ id := 1, docs := [10, 11], deleted := [1] }, { id := 3, docs := [12], deleted := [] }] }
+    (backup none s {}).1.openReader = some (4, [([10, 11], [1]), ([12], [])]) ∧
+    contentAbs s.content = [10, 12] ∧
+    (backup (some 0) s {}).1.segIds = [] ∧ (backup (some 1) s {}).1.segIds = [1] ∧
+    (backup (some 2) s {}).1.segIds = [3, 1] ∧ (backup (some 2) s {}).1.snapEpochs = [] ∧
+    (backup (some 2) s {}).1.openReader = none ∧
+    (backup none s (backup (some 1) s {}).1).1.openReader = some (4, [([10, 11], [1]), ([12], [])]) := by
+  decide
 
 end Bluge.C08
